@@ -66,7 +66,7 @@ def run(ctx):
     if not exe:
         return
     # every 25th case is one that may die in Close(): it runs in a child process (≈ 2.5 s each)
-    n = 150 if ctx.tier == "quick" else 700
+    n = 150 if ctx.tier == "quick" else 1200
     seeds = [ctx.seed] if ctx.tier == "quick" else [ctx.seed + i for i in range(4)]
     for sd in seeds:
         outdir = ctx.run_harness(exe, "conn", n, seed=sd, extra={"VERIF_CONN_RISKY_EVERY": "25"}, timeout=900)
